@@ -221,6 +221,12 @@ func runBlasGuard(c *vrt.Ctx) {
 				if trivial {
 					localQuick++
 				}
+				if pn == nil && !trivial && p.N > 4 {
+					sampBlasGuard.offer(c, 1, func() any {
+						return map[string]any{"sub_check": "blas entry points on guard pages", "call": call.Describe(), "operands": "exactly minimal, flush against the " + mem + " PROT_NONE page",
+							"outcome": "returned normally", "margin_bytes_unchanged": marginOK, "words_changed_outside_result": len(call.Changed(snap, false))}
+					})
+				}
 				sigClass := call.FlagString() + " " + class
 				if bad := call.Invalid(); len(bad) > 0 {
 					panic("c07: generated guard tuple is invalid: " + call.Describe())
